@@ -21,12 +21,12 @@ class LearningStack(nl.AppStack, WhoIsIAmServices):
 
 
 @meta(bounds="two complete stacks, loss-free LAN; own/peer max APDU, segmentation support, max-segments-accepted and "
-             "whether the client learned the server's I-Am fixed per instance; proposed window of each side symbolic "
+             "whether the client learned the server's I-Am (once, or twice with an earlier more capable announcement) fixed per instance; proposed window of each side symbolic "
              "over 1..127; request and response payload length symbolic inside the instance's window, every octet symbolic",
       outside="capability combinations not instantiated (see instance list), payload lengths outside the windows, lossy media",
       stubs=["virtual clock (task._time)", "asyncore.loop -> clock advance", "task._Trigger -> wake flag", "fresh singletons per path"],
       assumes=["the requesting application feeds I-Am announcements into DeviceInfoCache.iam_device_info (bacpypes leaves this to the application)"])
-def limits_scn(d, Sc, Ss, segc, segs, msc, known, req, resp, wmax=127):
+def limits_scn(d, Sc, Ss, segc, segs, msc, known, req, resp, wmax=127, first_iam=None):
     w = World()
     lan = nl.FaultLAN([], world=w)
     cdev = nl.make_device("c", 10, maxApduLengthAccepted=Sc, segmentationSupported=SEG[segc], maxSegmentsAccepted=msc)
@@ -36,6 +36,14 @@ def limits_scn(d, Sc, Ss, segc, segs, msc, known, req, resp, wmax=127):
     client = LearningStack(cdev, lan, window=wc)
     server = LearningStack(sdev, lan, window=ws)
     if known:
+        if first_iam is not None:
+            # an earlier announcement of the same device from the same address with other (larger) capabilities:
+            # what counts is what the peer announced last
+            real = (sdev.maxApduLengthAccepted, sdev.segmentationSupported)
+            sdev.maxApduLengthAccepted, sdev.segmentationSupported = first_iam[0], SEG[first_iam[1]]
+            server.i_am(address=client.address)
+            w.run()
+            sdev.maxApduLengthAccepted, sdev.segmentationSupported = real
         server.i_am(address=client.address)
         w.run()
         if client.deviceInfoCache.get_device_info(server.address) is None:
@@ -150,9 +158,10 @@ def expected_outcome(req_len, resp_len, Sc, Ss, segc, segs, msc, known):
 
 
 def label(p):
-    return "Sc%d,Ss%d,seg%d/%d,ms%s,%s,req%s,resp%s" % (p["Sc"], p["Ss"], p["segc"], p["segs"], p["msc"],
-                                                       "known" if p["known"] else "unknown",
-                                                       "-".join(map(str, p["req"])), "-".join(map(str, p["resp"])))
+    return "Sc%d,Ss%d,seg%d/%d,ms%s,%s,req%s,resp%s%s" % (p["Sc"], p["Ss"], p["segc"], p["segs"], p["msc"],
+                                                         "known" if p["known"] else "unknown",
+                                                         "-".join(map(str, p["req"])), "-".join(map(str, p["resp"])),
+                                                         ",re-announced" if p.get("first_iam") else "")
 
 
 def instances(tier):
@@ -187,6 +196,9 @@ def instances(tier):
             cfgs.append(dict(Sc=Sc, Ss=Ss, segc=3, segs=3, msc=16, known=True, req=(Ss - 14, Ss - 10), resp=(2, 2)))
             cfgs.append(dict(Sc=Sc, Ss=Ss, segc=3, segs=3, msc=16, known=True, req=(2, 2), resp=(Sc - 14, Sc - 10)))
         cfgs.append(dict(Sc=50, Ss=128, segc=3, segs=3, msc=16, known=False, req=(114, 118), resp=(2, 2)))
+        # the server announced itself twice: first as a larger / more capable device, then as what it is
+        cfgs.append(dict(Sc=128, Ss=50, segc=3, segs=3, msc=16, known=True, req=(60, 60), resp=(2, 2), first_iam=(128, 3)))
+        cfgs.append(dict(Sc=50, Ss=50, segc=3, segs=1, msc=16, known=True, req=(60, 60), resp=(2, 2), first_iam=(50, 3)))
         for c in cfgs:
             out.append(Inst(limits_scn, dict(c, wmax=127), budget=80, path_timeout=60, label=label(c)))
     else:
@@ -211,6 +223,10 @@ def instances(tier):
                 ln = 50 * (n - 1) + 20
                 c = dict(Sc=50, Ss=50, segc=3, segs=3, msc=msc, known=True, req=(2, 2), resp=(ln, ln))
                 out.append(Inst(limits_scn, dict(c, wmax=8), budget=600, path_timeout=120, label=label(c)))
+        for (Sc, Ss, segs, first) in ((128, 50, 3, (128, 3)), (480, 128, 3, (480, 3)), (50, 50, 1, (50, 3)), (50, 50, 0, (50, 3)),
+                                      (128, 50, 0, (480, 3))):
+            c = dict(Sc=Sc, Ss=Ss, segc=3, segs=segs, msc=16, known=True, req=(Ss + 10, Ss + 12), resp=(2, 2), first_iam=first)
+            out.append(Inst(limits_scn, dict(c, wmax=127), budget=400, path_timeout=90, label=label(c)))
         for Sx in (1024, 1476):
             c = dict(Sc=Sx, Ss=Sx, segc=3, segs=3, msc=16, known=True, req=(Sx - 14, Sx - 10), resp=(2, 2))
             out.append(Inst(limits_scn, dict(c, wmax=127), budget=2400, path_timeout=600, label=label(c)))
